@@ -5,6 +5,7 @@ Case lines (see harness.cpp / driver.ml):
   words <kind> <w> <bits> <k> <op>*k     same history, raw storage words after every step (impl = model only)
   tostr <bits> <len> <codes> <zero> <one>              to_string with custom characters, two capacities
   popfb <w> <x>                                        popcount_fallback (constexpr path) and popcount
+  ct <kind> <w> <bits>                                 two fixed scripts evaluated by the compiler (constant evaluation)
 kind = bs (etl::bitset<bits>, w = 64) | bb (etl::basic_bitset<bits, uint<w>_t>)
 ops: sa ra fa not | s p v | r p | f p | rs p v | rc p q | rf p | and or xor andf orf xorf | int v |
      str len codes pos n zero one | sw | t p
@@ -259,6 +260,10 @@ def gen(tier, rng):
     # --- D/E. string constructors and to_string
     for bits in WIDTHS:
         out += string_cases(rng, bits, quick)
+    # --- constant evaluation: the two fixed scripts, every width and class
+    for bits in WIDTHS:
+        for kind, w in KINDS:
+            out.append(f"ct {kind} {w} {bits}")
     # --- F. popcount fallback
     for x in range(256):
         out.append(f"popfb 8 {x}")
@@ -274,6 +279,8 @@ def gen(tier, rng):
 def nontrivial(case, impl):
     if impl.startswith("unknown") or impl.startswith("crash"):
         return False
+    if case.startswith("ct "):
+        return "0" not in impl
     if case.startswith("popfb"):
         return not impl.startswith("0 ")
     return "1" in impl and impl.replace("contract", "").replace(";", "").strip() != ""
